@@ -1111,6 +1111,7 @@ func (e *env) gtids() {
 }
 
 func run(r *chk.Run) {
+	e2.RunTwoStreamsFirst(r)
 	selfTest()
 	r.Set("reference_self_test", "9 events captured from real servers (MySQL 5.6.24, MariaDB 10.0.13: FORMAT_DESCRIPTION, GTID, QUERY with and without CRC32) re-encoded bit for bit by the reference encoder before the enumeration")
 	// the 64 KB query events are allocation-bound: collect by memory limit, not by growth ratio
@@ -1136,7 +1137,6 @@ func run(r *chk.Run) {
 	e2.RunServerVersions(r)
 	e2.RunScale(r, "big-events")
 	e2.RunChecksumChange(r)
-	e2.RunNested(r)
 	e2.RunQueryEnvelope(r)
 	r.Eval(e.evals.Load())
 	r.DistinctN(e.distinct.Load())
